@@ -6,29 +6,30 @@ SPEC = dict(
     bins=["c14", "c14sbs"],
     props=["C14/Props.v", "C14/SbsProps.v"],
     coq_dir="C14",
-    coq_targets=["C14/Proofs.vo", "C14/SetObs.vo", "C14/SetAfter.vo", "C14/SetRange.vo", "C14/Examples.vo",
+    coq_targets=["C14/Proofs.vo", "C14/SetObs.vo", "C14/SetAfter.vo", "C14/SetDom.vo", "C14/SetRange.vo", "C14/SetRangeU.vo", "C14/SetEq.vo", "C14/SetOrd.vo", "C14/SetL0.vo", "C14/Examples.vo",
                  "C14/SbsProofs.vo", "C14/SbsSpec.vo", "C14/SbsRoundtrip.vo", "C14/SbsExamples.vo"],
     allowed_axioms=[],
-    level_text=("Unbounded Coq theorems about an executable model of read-fonts' IntSet / BitSet / BitPage: for EVERY sequence of "
+    level_text=("Unbounded Coq theorems about an executable model of read-fonts' IntSet / BitSet / BitPage and RangeSet. For EVERY sequence of "
                 "insert / remove / insert_range / remove_range / extend / remove_all / union / intersect / subtract / invert / clear / "
-                "assign operations on two evolving sets (induction over the operation list) the model state is well formed and its "
-                "membership function equals the mathematical set the operations define (pointwise boolean algebra; invert = complement), "
-                "in inclusive and inverted mode; insert/remove return values; the stored bit set iterates as the strictly ascending "
-                "enumeration of exactly the members (inclusive) / excluded values (inverted) and the cached length is its length; for "
-                "inclusive sets forward/backward iteration, iter_after = ascending members greater than the value, first = min, last = max, is_empty, len = number of members. "
-                "RangeSet: canonical form (sorted, disjoint, non-adjacent, exact coverage) and intersection are proved only over a complete "
-                "finite domain (bounded, by evaluation). The model is tied to the code on every run: the Rust harness drives the real "
+                "assign operations on two evolving sets (induction over the operation list) the model state is well formed, its stored values "
+                "stay inside the domain [0,dmax], and its membership function equals the mathematical set the operations define (pointwise "
+                "boolean algebra; invert = complement), in inclusive and inverted mode; and every observation equals its definition on that "
+                "mathematical set restricted to the domain, for both modes: contains, insert/remove return values, len = number of members, "
+                "is_empty, forward/backward iteration = ascending/descending member sequence (every prefix), iter_after, first = min, "
+                "last = max, iter_ranges / iter_excluded_ranges = the unique maximal runs of members / non-members, intersects_range and "
+                "intersects_set = non-emptiness of the meet, == iff same members (same-mode and mixed-mode paths), cmp = lexicographic "
+                "order of the member sequences. RangeSet (unbounded): after any insert sequence the ranges are sorted, disjoint, "
+                "non-adjacent and cover exactly the union of the inserted ranges; intersection = canonical form of the pointwise meet. "
+                "The model is tied to the code on every run: the Rust harness drives the real "
                 "IntSet/RangeSet through the public API (bounded-exhaustive short sequences over the page-edge-rich 11-value domain, random "
                 "long sequences over u32/u16/u8 and custom domains) and coqc evaluates the model on the same sequences, comparing a full "
                 "observation vector (len, contains, first/last, iter forward/backward/after, ranges, excluded ranges, intersects_range/set, "
                 "==, cmp, returned bools); an independent BTreeSet shadow checks the same observations, hash agreement and "
-                "discontinuous domains on the implementation alone."),
+                "discontinuous domains on the implementation alone. Sparse-bit-set codec: see the Sbs theorems."),
     level_note=("Trusted: Coq kernel; the hand-written model coq/C14/Model.v (agreement with read-fonts is checked on every run, not proved); "
                 "layer L0 (pages vector + page_map indices, the in-place BitSet::process, BitSetBuilder's page cache, binary searches, the "
-                "per-u64-element loops of BitPage) is tied to the model by the correspondence check only. Proved: membership refinement for all "
-                "operations and modes, inclusive-mode observations, len (inverted: relative to excluded values lying in the domain). "
-                "Tested only (model correspondence + shadow): inverted-mode iteration/first/last/ranges/iter_after, iter_ranges, intersects_*, "
-                "Eq/Ord/Hash, discontinuous domains; RangeSet theorems are bounded."),
+                "per-u64-element loops of BitPage) is tied to the model by the correspondence check only. "
+                "Tested only (shadow oracle on the implementation): Hash agreement, discontinuous domains, mixed-direction iteration."),
     technique="Coq proof (N bit lemmas, sorted association lists, induction over operation sequences) over hand-written Gallina model + vm_compute correspondence with read-fonts through the public API",
     modelled=["read-fonts/src/collections/int_set/{sparse_bit_set.rs, input_bit_stream.rs, output_bit_stream.rs}: decoder (BFS, filled nodes, bias/max, early break, skip_nodes), encoder per branch factor, to_sparse_bit_set, bit streams; plus an independent transcription of the IFT specification's decoding algorithm (spec_decode)",
               "read-fonts/src/collections/int_set/bitpage.rs: BitPage insert/remove/contains/insert_range/remove_range/len/iter/iter_after/iter_ranges, union/intersect/subtract (as one 512-bit integer)",
@@ -39,8 +40,6 @@ SPEC = dict(
                  "sparse-bit-set decoder theorems (totality, equivalence with spec_decode) assume input length <= 2^27 bytes",
                  "discontinuous Domain implementations (Even, TwoIntervals in the harness): implementation-only BTreeSet shadow oracle, not in the Coq model",
                  "Hash (equal sets hash equally; rebuild in the same/opposite mode hashes equally), mixed-direction iteration on one iterator, inclusive_iter, RangeSet<u16>: implementation-only oracle",
-                 "no theorem (model tied by correspondence + shadow oracle only) for: inverted-mode iter/first/last/iter_after, iter_ranges / iter_excluded_ranges, intersects_range, intersects_set, Eq (eq_iff_members), Ord, and that excluded values stay inside the domain",
-                 "RangeSet: rangeset_canonical / rangeset_intersection proved only bounded (all insert sequences of length <= 3 over ranges in [0,5]; intersections over [0,3]); unbounded statements rest on correspondence + sort-and-sweep oracle",
                  "L0 (pages vector + page_map indices, in-place process, binary searches): correspondence only",
                  "serde impls, Display/Debug, sparse-bit-set codec (other half of C14)"],
     assumptions=["element domain is continuous [0, dmax] with dmax < 2^32 (u32, u16, u8, GlyphId, GlyphId16, Tag, NameId and custom continuous domains)",
